@@ -37,7 +37,7 @@ def program(repo: Repo, where: str) -> ClassModel:
     import re
 
     rels = [r for r in RELS if r in repo.py_files]
-    restub = Obj("re", I=re.I, IGNORECASE=re.I, A=re.A, ASCII=re.A, VERSION1=256, V1=256)
+    restub = Obj("re")
     cm = ClassModel(repo, rels, where, {"re": restub, "ChoiceCase": Sym("ChoiceCase")}, max_steps=100000)
     install_re(cm)
     for need in ("Parser", "Token"):
